@@ -101,7 +101,7 @@ Proof.
     assert (I1 : XR.ctx_int (dctx d0) = true) by (unfold XTC.entry_int in EI; rewrite PD in EI; exact EI).
     assert (R0 : rrel (clo_ok im p clo) (dctx d0) e0 (init_state args)).
     { eapply entry_rrel; eauto. eapply XS.lin_nodup. exact (LINd d0 D0). }
-    eapply (sim_exec im p clo stop IMG EVEN SMALL ENC STOPL STOPC ENDC DEFS LINd FRG') with (c := dctx d0) (lc := lc); eauto. }
+    eapply (sim_exec im p clo stop IMG EVEN SMALL STOPL STOPC ENDC DEFS LINd FRG') with (c := dctx d0) (lc := lc); eauto. }
   destruct (rfin_run im stop _ _ _ FIN) as (outer & inner & RN).
   exists outer, inner. unfold run_rv. cbv zeta. fold full. fold im.
   assert (HD : exists l r, is' = LAB l :: r).
